@@ -19,6 +19,8 @@ pub enum TOp {
     /// OpConstant with result type = k-th defined id, n literal words
     Const(usize, usize),
     SpecConst(usize, usize),
+    /// OpConstant whose type id is the id the NEXT declaration will define (use before declaration), n literal words
+    ConstOfNext(usize),
     /// OpUndef with result type = k-th defined id (builds selector chains)
     Undef(usize),
     /// OpCopyObject with result type = k-th defined id
@@ -46,6 +48,8 @@ pub fn alphabet() -> Vec<TOp> {
             a.push(TOp::SpecConst(k, n));
         }
     }
+    a.push(TOp::ConstOfNext(1));
+    a.push(TOp::ConstOfNext(2));
     for k in 0..3 {
         a.push(TOp::Undef(k));
     }
@@ -161,6 +165,21 @@ fn build(h: &[TOp]) -> Built {
                 if let Some(ty) = map.get(&t).copied() {
                     map.insert(id, ty);
                 }
+                defined.push(id);
+            }
+            TOp::ConstOfNext(n) => {
+                let id = next;
+                next += 1;
+                let t = next; // not declared yet: the following declaration (if any) gets this id
+                let lits: Vec<u32> = (0..n).map(|j| 0x3333_0000 * (j as u32 + 1) + id).collect();
+                w.extend([op("Constant"), t, id]);
+                w.extend(&lits);
+                exp = match need(&map, t) {
+                    Err(()) => Exp::Reject(UNSUPPORTED),
+                    Ok(nd) if nd == n => Exp::Accept(vec![lit_operand(&lits)]),
+                    Ok(nd) if nd < n => Exp::Reject(SURPLUS),
+                    Ok(_) => Exp::Reject(MISSING),
+                };
                 defined.push(id);
             }
             TOp::Undef(k) | TOp::Copy(k) => {
